@@ -16,7 +16,7 @@ BUDGET = {"quick": 50, "thorough": 900}
 RULE = (
     "1-8 messages with due time T = now + d, d from {-1 h .. -1 ms, 0, 1 ms .. 999 ms, 1-30 s, 1 h, 1 y}, created through "
     "Job(deferred_until=...) or through next_execution_time (the shape of a retry / reschedule; with or without a period of its own), on one queue with 1-3 "
-    "priorities (20%: a far-future message first, sooner-due ones enqueued 1-4 s later while the consumer idles); random clock phase inside the second; a NORMAL consumer with free capacity starts before or after the enqueues "
+    "priorities (20%: a far-future message first, some messages sent back by the consumer through requeue() with a new due time, sooner-due ones enqueued 1-4 s later while the consumer idles); random clock phase inside the second; a NORMAL consumer with free capacity starts before or after the enqueues "
     "at a seeded polling phase and acks what it gets; optionally a DELAYED-category observer takes and rejects messages. "
     "Oracle: (i) no message leaves the broker's waiting/delayed storage towards a NORMAL consumer earlier than T - 1 ms (take "
     "instant read from the broker side); (ii) 1 ms before T the broker-side place is 'delayed' only; (iii) delivery within L "
@@ -42,6 +42,9 @@ def gen(rng, broker, tier):
         for i in range(1, rng.randint(2, 4)):
             msgs.append({"id": f"m{i}", "delay_us": rng.choice([1000, 300_000, 999_000, 1_500_000, 3_000_000]),
                          "via": rng.choice(["job", "params"]), "prio": 5, "at_us": rng.randint(1_200_000, 4_000_000)})
+            if rng.random() < 0.4:
+                # arrives immediately deliverable and is sent back by the consumer with a back-off (a retry's path: requeue)
+                msgs[-1].update({"delay_us": 0, "requeue_us": rng.choice([300_000, 1_000_000, 2_500_000])})
         return {"msgs": msgs, "consumer_start_us": rng.choice([0, 0, 300_000]), "observer": False, "observer_at_us": 0, "patient": True,
                 "knobs": {"step_cost": rng.choice([0, 0, 1, "rand"]),
                           "net": {"lat_lo": 50, "lat_hi": rng.choice([300, 3000]), "frag_p": rng.choice([0, 0.1])},
@@ -82,10 +85,12 @@ async def _main(sim, sc, out):
     t0 = sim.clock.us
     lat_hi = sc["knobs"]["net"]["lat_hi"] if b != "mem" else 0
     L = LATE[b] + 20 * lat_hi
-    horizon = t0 + max([m["at_us"] + max(m["delay_us"], 0) for m in sc["msgs"] if m["delay_us"] <= 30_000_000] + [
-        sc["consumer_start_us"]]) + L + 1_500_000
+    horizon = t0 + max([m["at_us"] + max(m["delay_us"], 0) + m.get("requeue_us", 0) + (L if m.get("requeue_us") else 0)
+                        for m in sc["msgs"] if m["delay_us"] <= 30_000_000] + [sc["consumer_start_us"]]) + L + 1_500_000
     listen_from = [None]
     observed: dict = {}
+    requeued: set = set()
+    first_delivery: dict = {}
 
     async def produce():
         conn = world.conn("p")
@@ -142,6 +147,18 @@ async def _main(sim, sc, out):
                 await cons.start()
                 continue
             key, payload, params = res
+            rq = msgs.get(key.id_, {}).get("requeue_us")
+            if rq is not None and key.id_ not in requeued and key.id_ not in delivered:
+                # the consumer sends the message back for later (what a retry does): a new due time through requeue()
+                requeued.add(key.id_)
+                first_delivery[key.id_] = sim.clock.us
+                T2 = sim.clock.now() + timedelta(microseconds=rq)
+                await mb.requeue(key, payload, Parameters(delay=DelayProperties(next_execution_time=T2), timestamp=sim.clock.now()))
+                due[key.id_] = sim.clock.dt_to_us(T2)
+                enq_us[key.id_] = sim.clock.us
+                msgs[key.id_]["delay_us"] = rq
+                sim.count("requeued-with-a-new-due-time")
+                continue
             delivered.setdefault(key.id_, sim.clock.us)
             await mb.ack(key)
         await cons.finish()
